@@ -16,13 +16,13 @@ func init() {
 	register(&Property{
 		ID:        "C23",
 		Title:     "IPAM garbage collection never frees an address that is still in use",
-		Technique: "static analysis: who-may-call, cut-set guards with flag-variable (phi) reasoning, slice-element provenance, pairing of bookkeeping maps (go/ssa over kube-controllers/pkg/controllers/node)",
+		Technique: "static analysis: who-may-call, cut-set guards with flag-variable (phi) reasoning incl. absorbing (veto) flags, slice-element provenance, pairing of bookkeeping maps (go/ssa over kube-controllers/pkg/controllers/node)",
 		DesignRef: "DESIGN.md §3 C23",
 		Explanation: "Decides structural clauses of the IPAM GC in the node controller: (own) every releasing call on the IPAM client is made from its one GC function; " +
 			"(final) every ReleaseOptions appended to the argument of ReleaseIPs comes from allocation.ReleaseOptions() of an allocation a for which, on every path, allocationIsValid(a,…) " +
 			"returned false and handleTracker.isConfirmedLeak(a.handle) returned true; (confirm) entries are stored into confirmedLeaks only for allocations tested or marked confirmed, " +
 			"keyed by a.id(); markConfirmedLeak without a timer is called only where the Kubernetes node is known not to exist (flag variable traced to nodeExists()/empty node name), " +
-			"the timed path confirms only under time.Since(*leakedAt) > grace && grace > 0; the timer is started only when unset and cleared together with the confirmed flag by markValid; " +
+			"and additionally only with evidence that nothing on the node is in use: allocationIsValid(a,…)==false for the same allocation, or (tunnel addresses) behind a flag variable that every allocationIsValid()==true edge of the scan loop forces to the opposite value until it is tested; the timed path confirms only under time.Since(*leakedAt) > grace && grace > 0; the timer is started only when unset and cleared together with the confirmed flag by markValid; " +
 			"VM allocations get a grace of at least vmRecreationGracePeriod; a changed sequence number re-validates the allocation; (handle) handleTracker.isConfirmedLeak returns true only " +
 			"after the loop over all of the handle's allocations and false as soon as one is not confirmed, and every tracked allocation is unconditionally registered with the handle tracker; " +
 			"(lastblock) ReleaseBlockAffinity is reached only with len(blocksByNode[node]) >= 2 for the node of the ranged empty block, after blockReleaseTracker.markEmpty(cidr) returned true, " +
@@ -54,6 +54,13 @@ func init() {
 				Old: "\t\tif knode != \"\" && c.nodeExists(knode) {\n\t\t\tlogc.Debug(\"Node still exists\")\n\t\t\tkubernetesNodeExists = true\n\t\t}", New: "\t\tif knode != \"\" && c.nodeExists(knode) {\n\t\t\tlogc.Debug(\"Node still exists\")\n\t\t\tkubernetesNodeExists = false\n\t\t}", Expect: "C23.confirm/nograce"},
 			{Name: "tunnel addresses confirmed while node exists", File: "kube-controllers/pkg/controllers/node/ipam.go",
 				Old: "\t\tif !kubernetesNodeExists {\n\t\t\tif !canDelete {", New: "\t\tif true {\n\t\t\tif !canDelete {", Expect: "C23.confirm/nograce"},
+			{Name: "tunnel addresses confirmed before the still-in-use check", File: "kube-controllers/pkg/controllers/node/ipam.go",
+				Old: "\t\t\tif !canDelete {\n\t\t\t\t// There are still valid allocations on the node.\n",
+				New: "\t\t\tfor _, a := range tunnelAddresses {\n\t\t\t\ta.markConfirmedLeak()\n\t\t\t\tc.confirmedLeaks[a.id()] = a\n\t\t\t}\n\t\t\tif !canDelete {\n\t\t\t\t// There are still valid allocations on the node.\n", Expect: "C23.confirm/evidence"},
+			{Name: "valid allocation no longer vetoes node cleanup", File: "kube-controllers/pkg/controllers/node/ipam.go",
+				Old: "\t\t\t\tcanDelete = false\n\t\t\t\ta.markValid()\n", New: "\t\t\t\ta.markValid()\n", Expect: "C23.confirm/evidence"},
+			{Name: "veto re-armed by a later tunnel address", File: "kube-controllers/pkg/controllers/node/ipam.go",
+				Old: "\t\t\t\ttunnelAddresses = append(tunnelAddresses, a)\n", New: "\t\t\t\ttunnelAddresses = append(tunnelAddresses, a)\n\t\t\t\tcanDelete = true\n", Expect: "C23.confirm/evidence"},
 			{Name: "candidate stored as confirmed leak", File: "kube-controllers/pkg/controllers/node/ipam.go",
 				Old: "\t\t\tif a.isConfirmedLeak() {\n\t\t\t\t// If the address", New: "\t\t\tif a.isCandidateLeak() {\n\t\t\t\t// If the address", Expect: "C23.confirm/store"},
 			{Name: "grace comparison dropped in markLeak", File: "kube-controllers/pkg/controllers/node/ipam_allocation.go",
@@ -99,7 +106,7 @@ type c23Model struct {
 	p *Prog
 	// fields
 	fConfirmedLeaks, fBlocksByNode, fAllBlocks, fEmptyBlocks, fHandle, fLeakedAt, fConfirmed, fSeq, fVMGrace, fByHandle *types.Var
-	funcs                                                                                                             []*ssa.Function
+	funcs                                                                                                               []*ssa.Function
 }
 
 func (m *c23Model) isM(cs CallSite, typ, name string) bool {
@@ -127,7 +134,7 @@ func runC23(c *Ctx) {
 
 	c.Rule("C23.own", "E-OWN", "every Release*/Remove* call on the IPAM client in the node controller is made by the one function that owns that kind of release", 3)
 	c.Rule("C23.final", "E-FLOW/E-GUARD", "every element appended to the argument of ReleaseIPs is a.ReleaseOptions() with !allocationIsValid(a,…) and handleTracker.isConfirmedLeak(a.handle) established on every path", 3)
-	c.Rule("C23.confirm", "E-GUARD/E-OWN/E-PAIR", "confirmedLeaks stores only for confirmed allocations keyed by id(); untimed markConfirmedLeak only where the node is known not to exist; re-allocation re-validates", 9)
+	c.Rule("C23.confirm", "E-GUARD/E-OWN/E-PAIR", "confirmedLeaks stores only for confirmed allocations keyed by id(); untimed markConfirmedLeak only where the node is known not to exist; untimed confirmation needs invalidity evidence (own test or node-wide flag); re-allocation re-validates", 11)
 	c.Rule("C23.grace", "E-GUARD/E-OWN", "timed confirmation only after time.Since(*leakedAt) > grace with grace > 0; timer started only when unset, cleared by markValid; VM grace floored by vmRecreationGracePeriod", 10)
 	c.Rule("C23.handle", "E-GUARD/E-PAIR", "handleTracker.isConfirmedLeak is a universal quantifier over the handle's allocations; every tracked allocation is registered with the handle tracker", 3)
 	c.Rule("C23.lastblock", "E-GUARD/E-FLOW/E-PAIR", "ReleaseBlockAffinity only with >= 2 blocks on the block's node, after a second-observation markEmpty, mustBeEmpty=true, followed by forgetBlock; markEmpty true only after the grace period", 8)
@@ -313,6 +320,7 @@ func c23Confirm(m *c23Model) {
 			c.Check(ok, "C23.confirm/nograce/"+host, p.Pos(cs.Instr.Pos()),
 				"untimed markConfirmedLeak only reachable where nodeExists() returned false or the node name is empty (directly or through a flag variable set only on such edges)",
 				"markConfirmedLeak (no grace period) in "+host+" is reachable on a path where the Kubernetes node may still exist")
+			c23Evidence(m, f, cs)
 		}
 	}
 	if nCalls < 3 {
@@ -355,6 +363,74 @@ func c23Confirm(m *c23Model) {
 	if nSeq == 0 {
 		c.Lost("no in-place update of allocation.sequenceNumber")
 	}
+}
+
+// c23Evidence: a missing Kubernetes node alone does not justify skipping the
+// grace period.  Every untimed markConfirmedLeak(a) additionally needs evidence
+// that nothing on the node is in use any more: either (own) a itself was just
+// found invalid - allocationIsValid(a,…) returned false on every path - or
+// (node-wide, for allocations that have no validity test of their own such as
+// tunnel addresses) the call is guarded by a flag variable that every
+// allocationIsValid(…)==true edge of the scan forces to the opposite value.
+func c23Evidence(m *c23Model, f *ssa.Function, cs CallSite) {
+	c, p := m.c, m.p
+	host := fnName(f)
+	site := p.Pos(cs.Instr.Pos())
+	a := cs.Args()[0]
+	isValidCall := func(g CallSite) bool { return m.isM(g, "IPAMController", "allocationIsValid") && len(g.Args()) == 3 }
+	own := guardedCut(cs.Instr, callCond(false, func(g CallSite) bool { return isValidCall(g) && c23Same(g.Args()[1], a) }))
+	if own {
+		c.Ok("C23.confirm/evidence/"+host, site, "untimed markConfirmedLeak(%s) only after allocationIsValid(%s,…) returned false", c23Short(a), c23Short(a))
+		return
+	}
+	stillValid := callCond(true, isValidCall)
+	nEvents := 0
+	notExists := c23NotExists(m, f)
+	nodeWide := guardedCut(cs.Instr, func(cond ssa.Value, pol bool) bool {
+		ok, n := c23FlagAbsorbs(cond, pol, stillValid)
+		if ok {
+			nEvents = n
+		}
+		return ok
+	})
+	if nodeWide {
+		c.Ok("C23.confirm/evidence/"+host, site, "untimed markConfirmedLeak(%s) has no validity test of its own and is only reachable behind a flag that every allocationIsValid()==true edge of the scan (%d) clears", c23Short(a), nEvents)
+		return
+	}
+	// A guard we cannot interpret (flag computed by a helper, …): do not guess.
+	opaque := guardedCut(cs.Instr, func(cond ssa.Value, pol bool) bool {
+		if notExists(cond, pol) {
+			return false
+		}
+		switch x := cond.(type) {
+		case *ssa.Phi:
+			_, n := c23FlagAbsorbs(cond, pol, stillValid)
+			return n == 0 // a flag no still-valid edge leads to: its meaning is unknown
+		case *ssa.Call:
+			_, builtin := x.Call.Value.(*ssa.Builtin)
+			return !builtin
+		}
+		return false
+	})
+	if opaque {
+		c.Undecided("C23.confirm/evidence/"+host, site, "untimed markConfirmedLeak(%s) is guarded only by conditions whose relation to allocationIsValid cannot be decided", c23Short(a))
+		return
+	}
+	c.Violate("C23.confirm/evidence/"+host, site,
+		"untimed markConfirmedLeak(%s) in %s is reachable although an allocation of the node may still be valid: neither allocationIsValid(%s,…)==false nor a flag cleared by every allocationIsValid()==true edge guards it (a vanished Node object alone does not prove the node's addresses unused)",
+		c23Short(a), host, c23Short(a))
+}
+
+// c23Short renders a value for a message, truncating long phi/append paths.
+func c23Short(v ssa.Value) string {
+	s := pathN(v, 3)
+	if strings.Contains(s, "phi(") {
+		return "<" + v.Type().String() + " taken from a locally built collection>"
+	}
+	if r := []rune(s); len(r) > 60 {
+		return string(r[:60]) + "…"
+	}
+	return s
 }
 
 // ----------------------------------------------------------------- grace --
